@@ -78,7 +78,7 @@ def cases(tier, seed):
     out = [{'k': 'chunk', 'items': [list(c) for c in combos[i:i + 100]]} for i in range(0, len(combos), 100)]
     for name in progs.names():
         out.append({'k': 'collector', 'prog': name})
-    for a in ('none', 'basic', 'basic_nopass', 'custom', 'multi', 'raising', 'two_services'):
+    for a in ('none', 'basic', 'basic_nopass', 'custom', 'multi', 'raising', 'two_services', 'rotating'):
         out.append({'k': 'auth', 'a': a})
     for what in ('plain', 'odd-values', 'surrogate-key', 'surrogate-value'):
         out.append({'k': 'poll_resource', 'what': what})
@@ -434,7 +434,10 @@ def auth(ctx, desc):
         'custom': ({'SERVICE_AUTH_PROVIDER': 'mc.plugs.ApiKeyAuth', 'API_KEY': 'k1'}, [('x-api-key', 'k1')]),
         'multi': ({'SERVICE_AUTH_PROVIDER': 'mc.plugs.MultiAuth'}, [('authorization', 'Bearer t'), ('x-tenant', 'acme'), ('x-empty', '')]),
         'raising': ({'SERVICE_AUTH_PROVIDER': 'mc.plugs.RaisingAuth'}, None),
+        'rotating': ({'SERVICE_AUTH_PROVIDER': 'mc.plugs.RotatingAuth'}, 'fresh'),
     }
+    from mc import plugs as _plugs
+    del _plugs.RotatingAuth.issued[:]
     seq = [('custom', {'API_KEY': 'first'}), ('custom', {'API_KEY': 'second'})] if a == 'two_services' else [(a, {})]
     ns, path = rig.load_program('c08prog', 'def f():\n    x = 1\n    return x\n')
     ctx.case()
@@ -473,6 +476,13 @@ def auth(ctx, desc):
         if not chan.polls() or not chan.sent():
             ctx.violation(f'C08/auth/{a}/no-traffic', f'polls={len(chan.polls())} sends={len(chan.sent())}', desc)
             return
+        if want == 'fresh':
+            # the provider is asked for the auth of each request: no request carries a token older than the previous request's
+            toks = [dict(tuple(x) for x in (c[2] or [])).get('authorization') for c in calls]
+            if len(set(toks)) != len(toks) or None in toks:
+                ctx.violation('C08/auth/stale-metadata', f'a provider handing out a new token per call issued {_plugs.RotatingAuth.issued}; the {len(calls)} requests carried {toks}', desc)
+                return
+            continue
         for c in calls:
             got = [tuple(x) for x in (c[2] or [])]
             if got != want:
